@@ -259,3 +259,84 @@ macro_rules! block_harness {
 block_harness!(print_string_block_n3_outside_known, 3, 16, false);
 block_harness!(print_string_block_n3_known_trailing_quote_backslash, 3, 16, true);
 block_harness!(print_string_block_n4_outside_known, 4, 18, false);
+
+// experiments (not registered): isolate an unexplained `__rust_dealloc` check failure on the block path
+#[kani::proof]
+#[kani::stub(alloc::string::String::push, sink::string_push)]
+#[kani::stub(alloc::string::String::push_str, sink::string_push_str)]
+#[kani::stub(str::repeat, sink::str_repeat_1)]
+#[kani::stub(alloc::fmt::format, format_stub_u1)]
+#[kani::stub(str::find, strlex::str_find_char)]
+#[kani::unwind(12)]
+fn exp_block_no_oracle_n2() {
+    let s = SymStr::any(2, &ALPHA_BLOCK);
+    kani::assume(has_lf(&s));
+    let mut w = Collect { native: String::new() };
+    print_string(s.as_str(), &mut w);
+    kani::cover!(true, "reached");
+    core::mem::forget(w);
+}
+#[kani::proof]
+#[kani::stub(alloc::string::String::push, sink::string_push)]
+#[kani::stub(alloc::string::String::push_str, sink::string_push_str)]
+#[kani::stub(str::repeat, sink::str_repeat_1)]
+#[kani::stub(alloc::fmt::format, format_stub_u1)]
+#[kani::stub(str::find, strlex::str_find_char)]
+#[kani::unwind(12)]
+fn exp_block_concrete() {
+    let mut w = Collect { native: String::new() };
+    print_string("a\n", &mut w);
+    kani::cover!(true, "reached");
+    core::mem::forget(w);
+}
+#[kani::proof]
+#[kani::stub(alloc::string::String::push, sink::string_push)]
+#[kani::stub(alloc::string::String::push_str, sink::string_push_str)]
+#[kani::stub(str::repeat, sink::str_repeat_1)]
+#[kani::stub(alloc::fmt::format, format_stub_u1)]
+#[kani::stub(str::find, strlex::str_find_char)]
+#[kani::unwind(12)]
+fn exp_block_table_n2() {
+    let n: usize = kani::any();
+    kani::assume(n >= 1 && n <= 2);
+    let mut bytes = [b'a'; 2];
+    let mut i = 0;
+    while i < 2 {
+        let k: u8 = kani::any();
+        kani::assume(k < 3);
+        bytes[i] = [b'\n', b'"', b'a'][k as usize];
+        i += 1;
+    }
+    let text = unsafe { core::str::from_utf8_unchecked(&bytes[..n]) };
+    let mut w = Collect { native: String::new() };
+    print_string(text, &mut w);
+    kani::cover!(true, "reached");
+    core::mem::forget(w);
+}
+
+// Control characters through the REAL `format!("\\u{{{:x}}}", ..)` (no format stub): one character
+// drawn from a few control characters whose hexadecimal and decimal spellings differ.
+const ALPHA_CTRL: [char; 4] = ['\u{b}', '\u{1f}', '\u{7f}', 'a'];
+#[kani::proof]
+#[kani::stub(alloc::string::String::push, sink::string_push)]
+#[kani::stub(alloc::string::String::push_str, sink::string_push_str)]
+#[kani::stub(str::repeat, sink::str_repeat_1)]
+#[kani::stub(str::find, strlex::str_find_char)]
+#[kani::unwind(14)]
+fn print_string_control_chars_real_format() {
+    let s = SymStr::any(1, &ALPHA_CTRL);
+    let mut w = Collect { native: String::new() };
+    print_string(s.as_str(), &mut w);
+    let (out, len) = sink::contents(&w.native);
+    let lexed = lex_quoted(&out, len);
+    assert!(lexed.is_some(), "C16: print_string output is exactly one GraphQL string token");
+    let l = lexed.unwrap();
+    assert!(l.n == s.n, "C16: string token has as many characters as the input");
+    #[cfg(not(verif_mutant))]
+    assert!(s.n == 0 || l.v[0] == s.chars[0] as u32, "C16: re-lexed string value equals the input");
+    #[cfg(verif_mutant)]
+    assert!(s.n == 0 || l.v[0] == 0x61, "mutant oracle: must be refuted");
+    kani::cover!(s.n == 1 && s.chars[0] == '\u{1f}', "U+001F reached");
+    kani::cover!(s.n == 1 && s.chars[0] == '\u{7f}', "U+007F reached");
+    core::mem::forget(w);
+}
